@@ -53,3 +53,16 @@ func (il *inputFieldList) get(name string) (i *InputField) {
 	}
 	return
 }
+
+// dup makes a copy of the list that does not share the dict and the slice
+// with the original.
+func (il *inputFieldList) dup() inputFieldList {
+	d := inputFieldList{list: append([]*InputField{}, il.list...)}
+	if il.dict != nil {
+		d.dict = make(map[string]*InputField, len(il.dict))
+		for k, v := range il.dict {
+			d.dict[k] = v
+		}
+	}
+	return d
+}
